@@ -24,6 +24,7 @@ ROOT = os.path.dirname(os.path.dirname(os.path.abspath(__file__)))
 REPO = os.environ.get("VERIF_REPO", "/repo")
 OUT_ITE = os.path.join(ROOT, "lean", "RsddModel", "Model", "GenIte.lean")
 OUT_FF = os.path.join(ROOT, "lean", "RsddModel", "Model", "GenFF.lean")
+OUT_SEM = os.path.join(ROOT, "lean", "RsddModel", "Model", "GenSem.lean")
 
 
 class Untranslatable(Exception):
@@ -368,6 +369,214 @@ end Gen.Sem
 """
 
 
+
+# ---------------------------------------------------------------- semiring one-liners
+SEM_TYPES = {
+    # type name -> (source file, lean prefix, lean carrier, field map for self/rhs, constructor kind)
+    "Complex": ("src/util/semirings/complex.rs", "cx", "Sem.Cx", {"re": "re", "im": "im"}, "struct"),
+    "ExpectedUtility": ("src/util/semirings/expectation.rs", "eu", "Sem.EU", {"0": "p", "1": "u"}, "tuple"),
+    "RealSemiring": ("src/util/semirings/realsemiring.rs", "real", "Rat", {"0": ""}, "tuple"),
+}
+
+
+class SemP(P):
+    """expression parser over f64 fields: + - * with the usual precedence, f64::max / f64::min,
+    comparisons joined by &&, `if … else if … else …`"""
+
+    def __init__(self, toks, fields, scalar, locals_):
+        super().__init__(toks)
+        self.fields, self.scalar, self.locals = fields, scalar, locals_
+
+    def operand(self, who):
+        # self.f / rhs.f / arg.f / other.f
+        var = "a" if who == "self" else "b"
+        self.eat(".")
+        f = self.eat()
+        if f not in self.fields:
+            raise Untranslatable("field %r" % f)
+        return var if self.scalar else "%s.%s" % (var, self.fields[f])
+
+    def atom(self):
+        tok = self.eat()
+        if tok == "(":
+            e = self.expr()
+            self.eat(")")
+            return "(" + e + ")"
+        if tok == "-":
+            return "-" + self.atom()
+        if re.match(r"\d+$", tok):
+            # 1.0 / 0.0 style literals arrive as `1` `.` `0`
+            if self.peek() == "." and re.match(r"\d+$", self.peek(1) or ""):
+                self.eat(".")
+                frac = self.eat()
+                if int(frac) != 0:
+                    raise Untranslatable("non-integral literal")
+            return tok
+        if tok == "f64":
+            self.eat("::")
+            fn = self.eat()
+            if fn not in ("max", "min"):
+                raise Untranslatable("f64::" + fn)
+            self.eat("(")
+            x = self.expr()
+            self.eat(",")
+            y = self.expr()
+            self.eat(")")
+            return "%s %s %s" % (fn, wrap_e(x), wrap_e(y))
+        if tok in ("self", "rhs", "arg", "other"):
+            return self.operand("self" if tok == "self" else "rhs")
+        if tok in self.locals:
+            return "(" + self.locals[tok] + ")"
+        raise Untranslatable("expression atom %r" % tok)
+
+    def term(self):
+        e = self.atom()
+        while self.peek() == "*":
+            self.eat("*")
+            e = "%s * %s" % (e, self.atom())
+        return e
+
+    def expr(self):
+        e = self.term()
+        while self.peek() in ("+", "-"):
+            op = self.eat()
+            e = "%s %s %s" % (e, op, self.term())
+        return e
+
+    def cond(self):
+        cs = []
+        while True:
+            l = self.expr()
+            op = self.eat()
+            if op == "=" and self.peek() == "=":
+                self.eat("=")
+                op = "="
+            elif op == "==":
+                op = "="
+            elif op not in ("<", ">"):
+                raise Untranslatable("comparison %r" % op)
+            r = self.expr()
+            cs.append("%s %s %s" % (l, op, r))
+            if self.peek() == "&&":
+                self.eat("&&")
+                continue
+            break
+        return " ∧ ".join(cs)
+
+
+def wrap_e(e):
+    return e if re.match(r"^[A-Za-z0-9_.]+$", e) else "(" + e + ")"
+
+
+def sem_body(src, header_re):
+    m = re.search(header_re, src, re.S)
+    if not m:
+        raise Untranslatable("not found: " + header_re)
+    b0 = src.index("{", m.end() - 1)
+    return re.sub(r"//[^\n]*", "", src[b0 + 1:matching_brace(src, b0)]).strip()
+
+
+def sem_value(body, tname, fields, kind, scalar):
+    """`let x: f64 = e;`* followed by a constructor expression; returns the Lean components"""
+    locals_ = {}
+    while True:
+        m = re.match(r"^let\s+([a-z_][a-z0-9_]*)\s*(?::\s*f64\s*)?=\s*(.*?);\s*(.*)$", body, re.S)
+        if not m:
+            break
+        p = SemP(tokenize(m.group(2)), fields, scalar, locals_)
+        locals_[m.group(1)] = p.expr()
+        if p.peek() is not None:
+            raise Untranslatable("trailing tokens in let")
+        body = m.group(3).strip()
+    if kind == "struct":
+        m = re.match(r"^(?:Self|%s)\s*\{(.*)\}$" % tname, body, re.S)
+        if not m:
+            raise Untranslatable("not a struct literal: " + body[:40])
+        comps = {}
+        toks = tokenize(m.group(1))
+        p = SemP(toks, fields, scalar, locals_)
+        while p.peek() is not None:
+            f = p.eat()
+            p.eat(":")
+            comps[f] = p.expr()
+            if p.peek() == ",":
+                p.eat(",")
+        return [comps[f] for f in fields]
+    m = re.match(r"^(?:Self|%s)\s*\((.*)\)$" % tname, body, re.S)
+    if not m:
+        raise Untranslatable("not a tuple constructor: " + body[:40])
+    p = SemP(tokenize(m.group(1)), fields, scalar, locals_)
+    comps = [p.expr()]
+    while p.peek() == ",":
+        p.eat(",")
+        if p.peek() is None:
+            break
+        comps.append(p.expr())
+    if p.peek() is not None or len(comps) != len(fields):
+        raise Untranslatable("constructor arity")
+    return comps
+
+
+def sem_pack(comps, scalar):
+    return comps[0] if scalar else "⟨" + ", ".join(comps) + "⟩"
+
+
+def translate_semiring(tname):
+    path, pre, carrier, fields, kind = SEM_TYPES[tname]
+    scalar = carrier == "Rat"
+    src = open(os.path.join(REPO, path)).read()
+    out = []
+    binop = r"impl\s+(?:ops::)?%s<%s>\s+for\s+%s\s*\{.*?fn\s+%s\s*\(\s*self\s*,\s*rhs\s*:\s*%s\s*\)\s*->\s*Self::Output\s*\{"
+    for trait, fn, lean in (("Add", "add", "Add"), ("Mul", "mul", "Mul"), ("Sub", "sub", "Sub")):
+        body = sem_body(src, binop % (trait, tname, tname, fn, tname))
+        out.append("def %s%s (a b : %s) : %s := %s" % (pre, lean, carrier, carrier, sem_pack(sem_value(body, tname, fields, kind, scalar), scalar)))
+    for fn, lean in (("one", "One"), ("zero", "Zero")):
+        body = sem_body(src, r"fn\s+%s\s*\(\s*\)\s*->\s*Self\s*\{" % fn)
+        out.append("def %s%s : %s := %s" % (pre, lean, carrier, sem_pack(sem_value(body, tname, fields, kind, scalar), scalar)))
+    if tname in ("ExpectedUtility", "RealSemiring"):
+        for fn, lean in (("join", "Join"), ("meet", "Meet")):
+            body = sem_body(src, r"fn\s+%s\s*\(\s*&self\s*,\s*arg\s*:\s*&Self\s*\)\s*->\s*Self\s*\{" % fn)
+            out.append("def %s%s (a b : %s) : %s := %s" % (pre, lean, carrier, carrier, sem_pack(sem_value(body, tname, fields, kind, scalar), scalar)))
+    if tname == "ExpectedUtility":
+        # both `choose` implementations (BBSemiring and BBRing): if c { *self } else { *arg }
+        bodies = [m for m in re.finditer(r"fn\s+choose\s*\(\s*&self\s*,\s*arg\s*:\s*&ExpectedUtility\s*\)\s*->\s*ExpectedUtility\s*\{", src)]
+        if len(bodies) != 2:
+            raise Untranslatable("expected two choose implementations")
+        for k, m in enumerate(bodies):
+            b0 = src.index("{", m.end() - 1)
+            body = re.sub(r"//[^\n]*", "", src[b0 + 1:matching_brace(src, b0)]).strip()
+            mm = re.match(r"^if\s+(.*?)\s*\{\s*\*self\s*\}\s*else\s*\{\s*\*arg\s*\}$", body, re.S)
+            if not mm:
+                raise Untranslatable("choose is not `if c { *self } else { *arg }`")
+            p = SemP(tokenize(mm.group(1)), fields, scalar, {})
+            c = p.cond()
+            if p.peek() is not None:
+                raise Untranslatable("trailing tokens in choose")
+            out.append("def %sChoose%s (a b : %s) : %s := if %s then a else b" % (pre, "" if k == 0 else "Ring", carrier, carrier, c))
+        # partial_cmp: if c1 { Some(Less) } else if c2 { Some(Greater) } else if c3 { Some(Equal) } else { None }
+        body = sem_body(src, r"fn\s+partial_cmp\s*\(\s*&self\s*,\s*other\s*:\s*&ExpectedUtility\s*\)\s*->\s*Option<Ordering>\s*\{")
+        arms = []
+        rest = body
+        while True:
+            mm = re.match(r"^if\s+(.*?)\s*\{\s*Some\s*\(\s*Ordering::(Less|Greater|Equal)\s*\)\s*\}\s*else\s*(.*)$", rest, re.S)
+            if not mm:
+                break
+            p = SemP(tokenize(mm.group(1)), fields, scalar, {})
+            c = p.cond()
+            if p.peek() is not None:
+                raise Untranslatable("trailing tokens in partial_cmp")
+            arms.append((c, {"Less": ".lt", "Greater": ".gt", "Equal": ".eq"}[mm.group(2)]))
+            rest = mm.group(3).strip()
+        if not re.match(r"^\{\s*None\s*\}$", rest) or not arms:
+            raise Untranslatable("partial_cmp shape")
+        lines = ["def %sPartialCmp (a b : %s) : Option Ordering :=" % (pre, carrier)]
+        for k, (c, r) in enumerate(arms):
+            lines.append("  %sif %s then some %s" % ("" if k == 0 else "else ", c, r))
+        lines.append("  else none")
+        out.append("\n".join(lines))
+    return "\n".join(out)
+
+
 def untranslated(ns, names, why):
     body = "\n".join("def %s_UNTRANSLATED : Unit := ()" % n.replace("?", "Q") for n in names)
     return "namespace %s\n-- the source left the translator's grammar: %s\n%s\nend %s\n" % (ns, why.replace("\n", " "), body, ns)
@@ -404,6 +613,19 @@ def main():
         parts.append(untranslated("Gen.Sem", ["ffNew", "ffNegate", "ffAdd", "ffSub"], str(e)))
         status["FiniteField::{new,negate,add,sub}"] = "UNTRANSLATED: %s" % e
     write_if_changed(OUT_FF, "\n".join(parts))
+    parts = ["import RsddModel.Model.Semirings\n" + head % ("The one-line operations of `Complex`, `ExpectedUtility` and `RealSemiring` (src/util/semirings) over `Rat`.", "TieSem")]
+    sem_names = {"Complex": ["cxAdd", "cxMul", "cxSub", "cxOne", "cxZero"],
+                 "ExpectedUtility": ["euAdd", "euMul", "euSub", "euOne", "euZero", "euJoin", "euMeet", "euChoose", "euChooseRing", "euPartialCmp"],
+                 "RealSemiring": ["realAdd", "realMul", "realSub", "realOne", "realZero", "realJoin", "realMeet"]}
+    for tname in ("Complex", "ExpectedUtility", "RealSemiring"):
+        try:
+            body = translate_semiring(tname)
+            parts.append("namespace Gen.Sem\n\n" + body + "\n\nend Gen.Sem\n")
+            status["%s one-liners" % tname] = "translated (%d definitions)" % len(sem_names[tname])
+        except (Untranslatable, OSError, KeyError, ValueError) as e:
+            parts.append(untranslated("Gen.Sem", sem_names[tname], str(e)))
+            status["%s one-liners" % tname] = "UNTRANSLATED: %s" % e
+    write_if_changed(OUT_SEM, "\n".join(parts))
     return status
 
 
